@@ -192,7 +192,7 @@ func (u *Unit) heapCur(st *State, name string) string {
 // heapFacts: invariants of every version of a heap (nil map is empty).
 func (u *Unit) heapFacts(name, c string) {
 	if strings.HasPrefix(name, "MD$") {
-		ks := strings.TrimPrefix(name, "MD$")
+		ks := arrayDomain(arrayRange(u.heapSort[name]))
 		u.assumes = append(u.assumes, eq(sel(c, "0"), u.emptySet(ks)))
 	}
 }
@@ -295,6 +295,38 @@ func (u *Unit) havocAll(st *State) {
 	u.flushBounds(st)
 }
 
+// heapTypeKey names the heap partition of a Go type: values of different Go types live in different
+// heap arrays and therefore cannot alias (named non-struct types are identified with their underlying type,
+// since conversions between them share memory).
+func heapTypeKey(t types.Type) string {
+	t = types.Unalias(t)
+	if n, ok := t.(*types.Named); ok {
+		if _, isStruct := n.Underlying().(*types.Struct); !isStruct {
+			if _, isIface := n.Underlying().(*types.Interface); !isIface {
+				return heapTypeKey(n.Underlying())
+			}
+		}
+		return typeKey(n)
+	}
+	switch u := t.(type) {
+	case *types.Pointer:
+		return "*" + heapTypeKey(u.Elem())
+	case *types.Slice:
+		return "[]" + heapTypeKey(u.Elem())
+	case *types.Array:
+		return fmt.Sprintf("[%d]%s", u.Len(), heapTypeKey(u.Elem()))
+	case *types.Map:
+		return "map[" + heapTypeKey(u.Key()) + "]" + heapTypeKey(u.Elem())
+	case *types.Interface:
+		return "iface"
+	case *types.Signature:
+		return "func"
+	case *types.Chan:
+		return "chan " + heapTypeKey(u.Elem())
+	}
+	return typeKey(t)
+}
+
 func refKind(t types.Type) string {
 	t = types.Unalias(t)
 	if isTime(t) || opaqueStruct(t) {
@@ -332,14 +364,14 @@ func (u *Unit) cellHeap(t types.Type) string {
 		return u.arrHeap(a.Elem())
 	}
 	s := u.enc.sortOf(t)
-	name := "C$" + s
+	name := "C$" + heapTypeKey(t)
 	u.regHeap(name, "(Array Int "+s+")")
 	return name
 }
 
 func (u *Unit) arrHeap(elem types.Type) string {
 	s := u.enc.sortOf(elem)
-	name := "A$" + s
+	name := "A$" + heapTypeKey(elem)
 	if s == "Slice" {
 		u.markPtr(name, "arr", elem)
 	}
@@ -349,8 +381,10 @@ func (u *Unit) arrHeap(elem types.Type) string {
 
 func (u *Unit) mapHeaps(m *types.Map) (dom, val string, ks, vs string) {
 	ks, vs = u.enc.sortOf(m.Key()), u.enc.sortOf(m.Elem())
-	dom = "MD$" + ks
-	val = "MV$" + ks + "$" + vs
+	// heaps are keyed by the (underlying) Go map type: maps of different types can never alias
+	mk := heapTypeKey(m)
+	dom = "MD$" + mk
+	val = "MV$" + mk
 	u.markPtr(val, "mapval", m.Elem())
 	u.regHeap(dom, "(Array Int (Array "+ks+" Bool))")
 	u.regHeap(val, "(Array Int (Array "+ks+" "+vs+"))")
@@ -358,6 +392,15 @@ func (u *Unit) mapHeaps(m *types.Map) (dom, val string, ks, vs string) {
 }
 
 func (u *Unit) card(ks, domArr string) string {
+	if !u.enc.declared[q("card$"+ks)] {
+		f := u.enc.declFun("card$"+ks, []string{"(Array " + ks + " Bool)"}, "Int")
+		ds := "(Array " + ks + " Bool)"
+		u.enc.axioms = append(u.enc.axioms,
+			fmt.Sprintf("(forall ((d!c %s) (k!c %s)) (! (= (%s (store d!c k!c true)) (+ (%s d!c) (ite (select d!c k!c) 0 1))) :pattern ((%s (store d!c k!c true)))))", ds, ks, f, f, f),
+			fmt.Sprintf("(forall ((d!c %s) (k!c %s)) (! (= (%s (store d!c k!c false)) (- (%s d!c) (ite (select d!c k!c) 1 0))) :pattern ((%s (store d!c k!c false)))))", ds, ks, f, f, f),
+			fmt.Sprintf("(forall ((d!c %s)) (! (>= (%s d!c) 0) :pattern ((%s d!c))))", ds, f, f),
+		)
+	}
 	f := u.enc.declFun("card$"+ks, []string{"(Array " + ks + " Bool)"}, "Int")
 	t := app(f, domArr)
 	return t
